@@ -242,7 +242,7 @@ def run_pred(prop, tier, seed, extra=None, race=False):
     if r.returncode != 0:
         return {"error": "mfh prop %s failed (%d): %s" % (prop, r.returncode, (r.stderr or r.stdout)[-2000:])}
     try:
-        res = json.loads(r.stdout.strip().splitlines()[-1])
+        res = json.loads(r.stdout.strip("\n").split("\n")[-1])
     except Exception as e:  # noqa
         return {"error": "unparsable predicate output: %s: %s" % (e, r.stdout[-500:])}
     if race:
@@ -583,7 +583,7 @@ def replay(prop, path):
                        stderr=subprocess.STDOUT, env=GOENV, text=True)
     print(r.stdout)
     try:
-        res = json.loads(r.stdout.strip().splitlines()[-1])
+        res = json.loads(r.stdout.strip("\n").split("\n")[-1])
         return 1 if res.get("failures") else 0
     except Exception:
         return 2
